@@ -242,6 +242,12 @@ fn term0() -> Tree {
 /// -> player two y -> player two y2 (one infoset per own earlier action) -> chance e.  In one pass two chance infosets of
 /// equal weights and two infosets of the sampled player are drawn: independence across infosets is observable
 fn freq_game(dw: &[i64], ew: &[i64], na: usize) -> Tree {
+    if na >= 8 {
+        // WIDTH: chance d -> player one x -> player two y -> end (the layers below would make 4000 nodes)
+        let y = || Tree::P { pl: 2, info: "y".into(), kids: (0..na).map(|j| PKid { a: format!("b{j}"), t: term0() }).collect() };
+        let x = || Tree::P { pl: 1, info: "x".into(), kids: (0..na).map(|j| PKid { a: format!("a{j}"), t: y() }).collect() };
+        return Tree::C { ci: "d".into(), kids: dw.iter().map(|w| CKid { w: Num::I(*w), t: x() }).collect() };
+    }
     // (the third distribution sits below the first action of y2 only: the tree stays small)
     let e = || Tree::C { ci: "e".into(), kids: ew.iter().map(|w| CKid { w: Num::I(*w), t: term0() }).collect() };
     let y2 = |b: usize| Tree::P { pl: 2, info: format!("y2b{b}"), kids: (0..na).map(|j| PKid { a: format!("c{j}"), t: if j == 0 && b == 0 { e() } else { term0() } }).collect() };
@@ -332,8 +338,10 @@ pub fn record(args: &Args) {
         (&[1, 3], &[2, 3, 5], &[0.7, 0.2, 0.1]),
         (&[3, 1, 4], &[1, 1], &[0.25, 0.75]),
         (&[1, 9], &[5, 3, 1, 1], &[0.1, 0.1, 0.2, 0.6]),
+        // WIDTH: ten actions (a sampler may treat long weight vectors differently)
+        (&[1, 1], &[1, 2], &[0.3, 0.2, 0.1, 0.1, 0.05, 0.05, 0.05, 0.05, 0.05, 0.05]),
     ];
-    let nd = if thorough { 3 } else { 2 };
+    let nd = if thorough { 4 } else { 2 };
     for (di, (dw, ew, p)) in dists.iter().take(nd).enumerate() {
         let t = freq_game(dw, ew, p.len());
         // player one: regrets proportional to p (flat payoffs leave them untouched), so its strategy
@@ -342,7 +350,7 @@ pub fn record(args: &Args) {
         // (player two owns y and one y2 infoset per action of y: all play p)
         let state: verif::State = [
             vec![InfoState { cum_regret: skew.clone(), cum_strat: vec![0.0; p.len()], strat: vec![1.0 / p.len() as f64; p.len()] }],
-            (0..p.len() + 1).map(|_| InfoState { cum_regret: vec![0.0; p.len()], cum_strat: vec![0.0; p.len()], strat: p.to_vec() }).collect(),
+            (0..if p.len() >= 8 { 1 } else { p.len() + 1 }).map(|_| InfoState { cum_regret: vec![0.0; p.len()], cum_strat: vec![0.0; p.len()], strat: p.to_vec() }).collect(),
         ];
         for meth in ["External", "Sampled"] {
             for rep in 0..reps {
